@@ -418,7 +418,9 @@ class Function(object):
                 if xj_id is None:
                     xj_id = "Point_{}".format(j)
 
-                if i == j or (i > j and symmetry):
+                # No constraint between a sample and itself. The two lists may differ (e.g. stationary points versus all
+                # points), so samples must be compared themselves, not their positions in their respective lists.
+                if point_i is point_j or (i > j and symmetry):
                     row_of_constraints.append(0)
 
                 else:
